@@ -10,7 +10,7 @@ import Generated.SizeLimitUses
 namespace XrayModel.C09
 open XrayModel.Alloc Generated.SizeLimitUses
 
-/-- the limit is consulted only in tests of the form `size (+ n) > L`, so raising it can only turn a failure into a pass -/
+/-- the limit is consulted only in tests of the form `size (+ n, possibly saturating) > L`, so raising it can only turn a failure into a pass -/
 theorem limit_uses_monotone : uses.all LimitUse.monotone = true := by decide
 
 /-- `Runtime::allocate`, `deallocate`, `can_allocate_by`, `ManagedXValue::new` and the two `Drop` impls still have the
@@ -70,8 +70,8 @@ theorem monotone_in_L (sh : AllocShape) (base L L' : Nat) (hLL : L ≤ L') (evs 
     (run sh (startAt base (some L')) evs).st.size = (run sh (startAt base (some L)) evs).st.size ∧
     (run sh (startAt base (some L')) evs).live = (run sh (startAt base (some L)) evs).live := by
   have h := run_sameBut sh L L' hLL evs (startAt base (some L)) (startAt base (some L')) rfl
-    ⟨rfl, rfl, rfl, rfl, rfl, rfl⟩ (by rw [hpass]; rfl)
-  obtain ⟨hsz, _, hlive, hviol, _, _⟩ := h
+    ⟨rfl, rfl, rfl, rfl, rfl⟩ (by rw [hpass]; rfl)
+  obtain ⟨hsz, _, hlive, hviol, _⟩ := h
   exact ⟨by rw [hviol, hpass], hsz, hlive⟩
 
 /-- every value is accounted for at least its payload (and at least its own cell) -/
